@@ -70,6 +70,7 @@ MNEMS = ['GR', 'A1', 'SFLU', 'X-Y_2', '42', 'NO', 'TIME', 'DATE']   # TIME / DAT
 UNITS = ['', 'M', 'F', 'US/F', '.1IN', 'S']
 VALUES = ['', '7', '-7', '1.5', '1e3', 'yes', 'NO', 'Yes', 'nO', '12:30:00', '13-DEC-86', 'A.B 1', 'a b  c', '9007199254740993']   # last: an integer that no double holds (2^53 + 1)
 DESCS = ['', 'text', 'two words', '1 DEPTH', 'x.y', '42', 'yes']
+CASE_PAIRS = [('Gr', 'GR'), ('GR', 'gr'), ('gr', 'Gr'), ('GR', 'GRX'), ('GRX', 'GR'), ('A1', 'a1')]
 CELLS = ['1.5', '-0.25', '1e-3', L.CELL_NULL, 'abc', 'NaN', '1.2.3']
 
 WELL_POOL = [['COMP', '', 'ANY OIL COMPANY INC.', 'COMPANY'], ['TIME', '', '12:30:00', 'LOG TIME'],
@@ -154,6 +155,7 @@ def shards(tier):
             for first in firsts:
                 out.append({'fam': 'cells', 'ncur': ncur, 'nfr': nfr, 'null': null, 'first': first})
     out.append({'fam': 'index'})
+    out.append({'fam': 'case'})
     for nfr in (1, 2, 3):
         out.append({'fam': 'nullzero', 'nfr': nfr})
     out.append({'fam': 'dups'})
@@ -219,7 +221,7 @@ def _pin(path):
     seams.pin_times(path)
 
 
-def observe(text, content, by_path=False, by_fd=False):
+def observe(text, content, by_path=False, by_fd=False, tolerant=False):
     """Parse `text` with the implementation.  Returns (obs, exc): obs is a flat dict in the key space of
     las_ref.expected() (or None), exc is (type name, message) when the reader raised.
     by_path: the text is written to a file (bytes as they are, ASCII) and the reader is given the path."""
@@ -239,7 +241,7 @@ def observe(text, content, by_path=False, by_fd=False):
             _pin(_scratch_path())
             las = LASRead.LASRead(_scratch_path(), 'C09')
         else:
-            las = LASRead.LASRead(io.StringIO(text), 'C09')
+            las = LASRead.LASRead(io.StringIO(text), 'C09', raise_on_error=False) if tolerant else LASRead.LASRead(io.StringIO(text), 'C09')
     except Exception as err:  # the property defines the result for every generated text: raising is a violation
         return None, (type(err).__name__, str(err))
     obs = {}
@@ -263,6 +265,19 @@ def observe(text, content, by_path=False, by_fd=False):
             mine.append('ZZZ')                  # another length
             if second != first or list(s_.mnemonics()) != first or first != [m.mnem for m in s_.members]:
                 obs[(s_.type, 'mnemonics')] = ('str', 'mnemonics() %r after the caller changed the list it was given; lines %r' % (list(s_.mnemonics()), [m.mnem for m in s_.members]))
+    # a section indexed by line number, counted from the front and from the back, is that line
+    for s_ in sections:
+        if s_.type != 'A':
+            n_ = len(s_.members)
+            wrong = []
+            for i in range(-n_, n_):
+                try:
+                    if s_[i] is not s_.members[i]:
+                        wrong.append('[%d] is not line %d' % (i, i % n_))
+                except Exception as err:  # noqa
+                    wrong.append('[%d] raises %s' % (i, type(err).__name__))
+            if wrong:
+                obs[(s_.type, 'by_number')] = ('str', '; '.join(wrong[:4]))
     # lookup by mnemonic text, as a user of the API would do: las[section][mnemonic]
     for sname, lines in (('W', content['well']), ('C', content['curves']), ('P', content['params'] or [])):
         if not las.has_section(sname):
@@ -416,6 +431,16 @@ def evaluate(content, layout, text=None):
                     devs[key] = classify(content, layout, key, want, got, obs)
             elif not L.same(want, got):
                 devs[key] = classify(content, layout, key, want, got, obs)
+    if exc is None and content.get('both_modes'):
+        # the keep-going mode of the reader (what the command line tools use) reads a valid file as the strict mode does
+        obs_t, exc_t = observe(text, content, tolerant=True)
+        if exc_t is not None:
+            devs[('tolerant',)] = ({'kind': 'tolerant_mode_raised', 'exc': exc_t[0]}, 'raise_on_error=False: reader raised %s: %s' % exc_t)
+        elif obs_t != obs:
+            keys = sorted((k for k in set(obs) | set(obs_t) if obs.get(k) != obs_t.get(k)), key=repr)
+            devs[('tolerant',)] = ({'kind': 'tolerant_mode_differs', 'what': repr(keys[0][:2])},
+                                   'raise_on_error=False reads %r as %r, raise_on_error=True as %r (%d differences)'
+                                   % (keys[0], obs_t.get(keys[0]), obs.get(keys[0]), len(keys)))
     return {'text': text, 'obs': obs, 'exc': exc, 'devs': devs}
 
 
@@ -603,6 +628,17 @@ def run_shard(shard, tier):
             if lays is None:
                 lays = data_layouts(content, tier, full)
             r.run(content, lays)
+    elif fam == 'case':
+        # curve names that differ in letter case only, or where one starts with the other, are different curves - in both modes of the reader
+        for a, b in CASE_PAIRS:
+            for ncur in (3, 4):
+                curves = [CURVE_POOL[0], [a, 'GAPI', '', 'first'], [b, 'GAPI', '', 'second'], ['RHOB', 'G/C3', '', 'density']][:ncur]
+                for nfr in (1, 2, 3):
+                    frames = [[INDEX_STYLES['dec'][f]] + [COLS[(c - 1) % 2 + 1][f] if c != 2 else '%d.25' % (f + 7) for c in range(1, ncur)] for f in range(nfr)]
+                    for vers in ('2.0', '1.2'):
+                        content = L.make_content(vers=vers, null='-999.25', well_extra=[], curves=curves, params=None, frames=frames, vdesc=VDESC[vers])
+                        content['both_modes'] = True
+                        r.run(content, data_layouts(content, tier, tier != 'quick'))
     elif fam == 'index':
         for style in INDEX_STYLES:
             for ncur, nfr in itertools.product((1, 2), (1, 2, 3)):
